@@ -153,11 +153,33 @@ pub fn gen_scenario(r: &mut Rng) -> Option<Scenario> {
     // auxiliaries of a DHW system
     let mut w = z.clone();
     let aux = r.chance(1, 3);
-    let auxid = if joule { 1 } else if hp { 2 } else { 0 };
-    if aux && auxid != 0 {
+    // auxiliaries of an electric DHW system, or (DHW electricity = auxiliaries only) of a non-electric one
+    let auxid = if joule {
+        1
+    } else if hp {
+        2
+    } else if dist {
+        4
+    } else if bio {
+        5
+    } else {
+        3
+    };
+    if aux {
         w = vals(r, n, 5.0, 1);
         lines.push(Line::Aux { id: auxid, v: w.clone(), comment: String::new() });
         mixes.push("auxiliaries".into());
+        if r.chance(1, 2) {
+            // a second AUX line for the same system (e.g. one per pump)
+            let w2 = vals(r, n, 3.0, 1);
+            lines.push(Line::Aux { id: auxid, v: w2.clone(), comment: String::new() });
+            for i in 0..n {
+                w[i] += w2[i];
+            }
+        }
+        if !(joule || hp) {
+            mixes.push("auxiliaries_are_the_only_dhw_electricity".into());
+        }
     }
     // part of the auxiliaries that belongs to DHW
     let w_acs: Vec<f64> = (0..n)
@@ -440,7 +462,7 @@ pub fn run(ctx: &Ctx) -> Report {
         check_scenario(ctx, &sc, t);
     });
     let mut quotas = vec![("closed_form_comparisons".to_string(), tally.get("closed_form_comparisons"), 3000), ("not_computable.error_reported".to_string(), tally.get("not_computable.error_reported"), 50)];
-    for m in ["direct_electric", "heat_pump", "heat_pump_also_heating", "solar_thermal_plus_boiler", "district_RED1", "district_RED2", "auxiliaries", "pv_shared_with_other_services", "load_matching", "two_biomass_types", "gas_cogeneration_present"] {
+    for m in ["direct_electric", "heat_pump", "heat_pump_also_heating", "solar_thermal_plus_boiler", "district_RED1", "district_RED2", "auxiliaries", "auxiliaries_are_the_only_dhw_electricity", "pv_shared_with_other_services", "load_matching", "two_biomass_types", "gas_cogeneration_present"] {
         quotas.push((format!("mix.{m}"), tally.get(&format!("mix.{m}")), 50));
     }
     for i in ["non_epb_consumption", "other_services_non_electric_consumption", "k_exp", "area", "scaling"] {
